@@ -83,3 +83,27 @@ Theorem C19_sent_limits_any_completion_order : forall (A : Type) (nb : A -> Z) (
   Forall (req_ok nb mb ms) (slow_trace created (group_reqs bunches) J').
 Proof. intros A nb mb ms created groups jobs J'; exact (pipeline_any_order_limits nb mb ms created groups jobs J'). Qed.
 Print Assumptions C19_sent_limits_any_completion_order.
+
+(** ** happens-before.  [submit_stages] is the model's happens-before relation: a request is started only after every
+    request of every earlier stage has COMPLETED.  On the slow path the stages are: create; then ONE STAGE PER
+    job-groups/create request, in bunch order (sequential: each is awaited before the next is sent, so that a job group
+    reaches the server after its parent); then all jobs/create requests together (concurrent); then the commit. *)
+Theorem C19_sent_stages : forall (A : Type) (nb : A -> Z) (mb ms : Z) (created : bool) (groups jobs : list A),
+  let bunches := gen_bunch nb mb ms (tag false groups) (tag true jobs) in
+  concat (submit_stages created bunches) = submit_specs (gen_bunch nb mb ms) created groups jobs
+  /\ ((2 <= length bunches)%nat ->
+      submit_stages created bunches
+      = [if created then CreateUpdate else OpenBatch] :: map (fun r => [r]) (group_reqs bunches) ++ [job_reqs bunches; [Commit]]
+      /\ Forall (fun r => req_jobs r = []) (group_reqs bunches)
+      /\ Forall (fun r => req_groups r = []) (job_reqs bunches)).
+Proof. intros A nb mb ms created groups jobs; exact (pipeline_stages nb mb ms created groups jobs). Qed.
+Print Assumptions C19_sent_stages.
+
+(** In EVERY order in which the server can receive the requests under that happens-before relation (any order inside a
+    stage, stage after stage) the job-group specs arrive exactly in their original order and every job spec exactly once. *)
+Theorem C19_sent_happens_before : forall (A : Type) (nb : A -> Z) (mb ms : Z) (created : bool) (groups jobs : list A)
+    (t : list (request A)),
+  linearization (submit_stages created (gen_bunch nb mb ms (tag false groups) (tag true jobs))) t ->
+  sent_groups t = groups /\ Permutation (sent_jobs t) jobs.
+Proof. intros A nb mb ms created groups jobs t; exact (pipeline_linearization nb mb ms created groups jobs t). Qed.
+Print Assumptions C19_sent_happens_before.
